@@ -479,24 +479,21 @@ def config_schema() -> list[dict]:
     return out
 
 
-_ACCEPT_DIR: list[str] = []
-
-
 def config_accepts(settings: list, docroot: str) -> bool:
     """does the working tree's loader take a configuration file with these extra settings ([table, key, TOML text])?"""
     from nauyaca.server.config import ServerConfig
 
-    from .. import core as _core
-
-    if not _ACCEPT_DIR:
-        _ACCEPT_DIR.append(_core.mkdtemp("nv-c20accept-"))
-    path = os.path.join(_ACCEPT_DIR[0], "config.toml")
+    fd, path = tempfile.mkstemp(prefix="nv-accept-", suffix=".toml")
     try:
-        Path(path).write_text(Started("toml", "auto", False, None, docroot, extra=settings).toml_text(None, None))
+        with os.fdopen(fd, "w") as f:
+            f.write(Started("toml", "auto", False, None, docroot, extra=settings).toml_text(None, None))
         ServerConfig.from_toml(Path(path))
         return True
     except BaseException:  # noqa: BLE001
         return False
+    finally:
+        with contextlib.suppress(OSError):
+            os.unlink(path)
 
 
 # ------------------------------------------------------------------------------------------------
